@@ -57,6 +57,8 @@ func rItem(e rEntry) ap.Item {
 		return &ap.Actor{ID: ap.IRI(b), Type: ap.PersonType, Inbox: ap.IRI(b + "/inbox")}
 	case "object":
 		return &ap.Object{ID: ap.IRI(b), Type: ap.NoteType}
+	case "list1": // the addressee as the only member of a list (what a JSON array of one decodes to)
+		return ap.ItemCollection{&ap.Actor{ID: ap.IRI(b), Type: ap.PersonType}}
 	}
 	panic("unknown form " + e.F)
 }
@@ -76,6 +78,13 @@ func rProject(it ap.Item) rEntry {
 	}
 	var s string
 	switch v.Kind() {
+	case reflect.Slice:
+		if v.Len() == 1 {
+			if m, ok := v.Index(0).Interface().(ap.Item); ok {
+				return rEntry{rProject(m).W, "list1"}
+			}
+		}
+		return rEntry{-1, "unknown"}
 	case reflect.String:
 		s = v.String()
 	case reflect.Struct:
